@@ -9,9 +9,17 @@ Proof. vm_compute. reflexivity. Qed.
 Lemma valget_addr : msgstr2bytes "CFG" "CFG-VALGET" = Ok ([6%N], [139%N]).
 Proof. vm_compute. reflexivity. Qed.
 
-Ltac bindok H := match type of H with
-  | bind ?r _ = Ok _ => let x := fresh "x" in let E := fresh "E" in destruct r as [x|] eqn:E; [cbn [bind] in H|discriminate]
-  end.
+Lemma bind_ok_inv {A B} (r : result A) (k : A -> result B) y :
+  bind r k = Ok y -> exists x, r = Ok x /\ k x = Ok y.
+Proof. destruct r as [x|e]; [intros H; exists x; split; [reflexivity|exact H]|discriminate]. Qed.
+
+Lemma named_inv c i mode p m :
+  named c i mode p = Ok m ->
+  exists ci, msgstr2bytes c i = Ok ci /\ construct (fst ci) (snd ci) mode true (KwPayload p) = Ok m.
+Proof. unfold named. apply bind_ok_inv. Qed.
+
+Ltac bindok H := let x := fresh "x" in let E := fresh "E" in
+  apply bind_ok_inv in H; destruct H as (x & E & H).
 
 (* one configuration item on the wire: 32-bit little-endian key id, then the value at the width of the key's type *)
 Definition item_bytes (kv : cfgkey * pyval) : result bytes :=
@@ -50,8 +58,9 @@ Proof.
   destruct (cfg_limit_set <? Z.of_nat (length items)) eqn:El; [discriminate|].
   unfold U1 in H. rewrite !Msg_lemmas.v2b_U in H.
   bindok H. bindok H. bindok H. bindok H.
-  unfold named in H. rewrite valset_addr in H. cbn [bind fst snd] in H.
-  apply construct_fields in H. destruct H as (Hc & Hi & Hm & _ & _ & _ & _ & Hp).
+  apply named_inv in H. destruct H as (ab & Eab & H).
+  rewrite valset_addr in Eab. injection Eab as <-.
+  apply construct_fields in H. cbn [fst snd] in H. destruct H as (Hc & Hi & Hm & _ & _ & _ & _ & Hp).
   exists x0, x1, x2. repeat split; auto.
   - rewrite Hp. do 2 f_equal. destruct (t =? 0); vm_compute in E; injection E as <-; reflexivity.
   - unfold cfg_limit_set in El. lia.
@@ -68,8 +77,9 @@ Proof.
   destruct (cfg_limit_del <? Z.of_nat (length keys)) eqn:El; [discriminate|].
   unfold U1 in H. rewrite !Msg_lemmas.v2b_U in H.
   bindok H. bindok H. bindok H. bindok H.
-  unfold named in H. rewrite valdel_addr in H. cbn [bind fst snd] in H.
-  apply construct_fields in H. destruct H as (Hc & Hi & Hm & _ & _ & _ & _ & Hp).
+  apply named_inv in H. destruct H as (ab & Eab & H).
+  rewrite valdel_addr in Eab. injection Eab as <-.
+  apply construct_fields in H. cbn [fst snd] in H. destruct H as (Hc & Hi & Hm & _ & _ & _ & _ & Hp).
   exists x0, x1, x2. repeat split; auto.
   rewrite Hp. do 2 f_equal. destruct (t =? 0); vm_compute in E; injection E as <-; reflexivity.
 Qed.
@@ -85,8 +95,9 @@ Proof.
   destruct (cfg_limit_poll <? Z.of_nat (length keys)) eqn:El; [discriminate|].
   unfold U1, U2 in H. rewrite !Msg_lemmas.v2b_U in H.
   bindok H. bindok H. bindok H. bindok H.
-  unfold named in H. rewrite valget_addr in H. cbn [bind fst snd] in H.
-  apply construct_fields in H. destruct H as (Hc & Hi & Hm & _ & _ & _ & _ & Hp).
+  apply named_inv in H. destruct H as (ab & Eab & H).
+  rewrite valget_addr in Eab. injection Eab as <-.
+  apply construct_fields in H. cbn [fst snd] in H. destruct H as (Hc & Hi & Hm & _ & _ & _ & _ & Hp).
   exists x0, x1, x2. repeat split; auto.
   rewrite Hp. do 2 f_equal. vm_compute in E. injection E as <-. reflexivity.
 Qed.
